@@ -1,6 +1,7 @@
 """Role-set discovery shared by several properties.  Functions are found by what they
 do (which field they write, which role functions they call), never by their name; the
 names today are only printed into the evidence."""
+import re
 from salib import mir
 from salib.mir import AnchorMissing, role_str, role_walk, strip_role
 from salib.runner import where_of
@@ -965,3 +966,111 @@ def result_sinks(b, out_param):
         if r == ("param", out_param) or r in rets:
             out.append(c)
     return out
+
+
+# ---------------------------------------------------------------------------- must-call census
+def _mc_key(b):
+    return "%s::%s" % (b.file, b.name)
+
+
+def must_calls(crate, b):
+    """names of the crate-local functions called on every path from the entry of b to a normal return (b seen with its
+    single-use private helpers spliced in)"""
+    v = mir.inline_view(crate, b)
+    rets = v.return_blocks()
+    if not rets:
+        return None
+    mods = crate._cache.get("crate_modules")
+    if mods is None:
+        mods = crate._cache["crate_modules"] = {re.sub(r"^<+", "", bid).split("::")[0].split(" ")[0] for bid in crate.bodies if not bid.startswith("<std") and not bid.startswith("<core")} - {"std", "core", "alloc"}
+    out = set()
+    for c in v.calls:
+        if v.blocks[c.bb]["cleanup"] or not c.callee:
+            continue
+        if c.callee.target in crate.bodies:
+            t = crate.bodies[c.callee.target]
+            if t.kind == "Closure" or t.auto_derived or not (t.file or "").startswith("src/") or not t.name:
+                continue
+            # only calls that carry weight: the callee can change something (&mut parameter) or does real work (not a small
+            # read-only accessor such as iter / ids / len, which a refactoring replaces by an equivalent without a second thought)
+            live = sum(1 for bl in t.blocks if not bl["cleanup"])
+            if live < 10 and not any(t.local_ty(l).startswith("&mut") for l in range(1, t.argc + 1)):
+                continue
+            nm = t.name
+        else:
+            # a method of one of the library's own traits, dispatched on a type parameter (`N::make`, `L::weak_shape`)
+            tr = c.callee.trait or ""
+            if not tr or tr.split("::")[0] not in mods or tr.startswith("std::") or tr.startswith("core::"):
+                continue
+            nm = c.callee.name
+        if v.must_pass([0], rets, {c.bb}):
+            out.add(nm)
+    return out
+
+
+def must_call_table(crate):
+    per = {}
+    for b in crate.fns():
+        if b.kind == "Closure" or b.auto_derived or not (b.file or "").startswith("src/") or not b.name or (b.file or "").endswith("tst.rs"):
+            continue
+        per.setdefault(_mc_key(b), []).append(b)
+    tab = {}
+    for k, bs in per.items():
+        if len(bs) != 1:
+            continue
+        m = must_calls(crate, bs[0])
+        if m:
+            tab[k] = sorted(m)
+    return tab
+
+
+_MUSTCALL = None
+
+
+def must_call_census(ctx, crate, files):
+    """MC: a function of `files` still calls, on every path to a normal return, each function it called on every path in the
+    reviewed tree (mustcall.json).  Functions that no longer exist (folded into their callers) put no obligation."""
+    global _MUSTCALL
+    import json as _json, os as _os
+    if _MUSTCALL is None:
+        try:
+            _MUSTCALL = _json.load(open(_os.path.join(_os.path.dirname(_os.path.dirname(_os.path.abspath(__file__))), "mustcall.json")))
+        except Exception:
+            _MUSTCALL = {}
+    ref = _MUSTCALL.get(ctx.cur_cfg or "default") or _MUSTCALL.get("default") or {}
+    if not ref:
+        raise AnchorMissing("mustcall.json", "no reference table")
+    names_now = {b.name for b in crate.fns() if b.name} | set(getattr(crate, "aliases", {}).values()) | {c.callee.name for b in crate.fns() for c in b.calls if c.callee and c.callee.target not in crate.bodies}
+    by_key = {}
+    by_name = {}
+    for b in crate.fns():
+        if b.kind == "Closure" or not b.name:
+            continue
+        by_key.setdefault(_mc_key(b), []).append(b)
+        by_name.setdefault(b.name, []).append(b)
+    n = 0
+    for k, want in sorted(ref.items()):
+        f, name = k.rsplit("::", 1)
+        if f not in files or f.endswith("/check.rs"):       # (check.rs is the debug invariant checker: not part of any property's mechanism)
+            continue
+        bs = by_key.get(k)
+        if not bs:
+            # moved to another file / renamed (alias): found by (old) name when unique
+            bs = by_name.get(name, [])
+        if len(bs) != 1:
+            continue                    # the function is gone (folded into its callers) or ambiguous: no obligation here
+        b = bs[0]
+        got = must_calls(crate, b)
+        if got is None:
+            continue
+        # a callee that was spliced into this very function by the view, or no longer exists, cannot be missed
+        v = mir.inline_view(crate, b)
+        absorbed = {crate.bodies[x].name for x in getattr(v, "inlined", []) if x in crate.bodies}
+        n += 1
+        for w in want:
+            if w not in names_now or w in absorbed or w == name:
+                continue
+            ctx.check(w in got, "early-exit:%s:%s" % (fkey(b), w), "%s still calls %s on every path to a normal return" % (short(b.id), w),
+                      "%s can now return normally without calling %s, which every path through it called in the reviewed tree: an early exit / fast path was put in front of work this function always did" % (short(b.id), w),
+                      where_of(b))
+    ctx.floor("functions compared with the must-call table", n, 1)
